@@ -5,6 +5,27 @@ PROPS = [json.loads(l) for l in open(os.path.join(VERIF, 'properties.jsonl'))]
 
 # pid -> (technique, level text, level note, design ref)
 CLAIMED = {
+ 'C08': ('Coq proof over a Gallina model of find_lexicons (glob matcher for * and ?, specifier splitting, most-recent rule, '
+         'language filter) against an independently written "documented selection"; differential correspondence on databases '
+         'built by add/remove histories',
+         'Theorems (closed under the global context): the matcher is string equality on literal patterns and decides id:*, '
+         '*:version, id:version exactly; every non-bare specifier selects exactly the documented lexicons (as sets) and a list '
+         'selects the union; a bare id selects exactly the most recently added lexicon with that id (last row); nothing '
+         'unmatched is ever selected; wn.Error iff nothing matches (except bare *), wn.lexicons() then returns []. Assumes ids '
+         'and versions contain no colon and no glob metacharacter (ids_plain).',
+         'Trusted: Coq kernel + vm_compute; SQLite GLOB modelled for * and ? only (character classes not generated), rowid order '
+         '= insertion order, str.split(); correspondence harness.',
+         'DESIGN.md section 5, C08'),
+ 'C14': ('Coq proof over a Gallina model of wn.similarity in two layers (natural-number/synset "parts" + the documented formula '
+         'over Q); float layer in Coq primitive floats for bit-exact differential correspondence',
+         'Theorems (closed under the global context): path in [0,1], 1 iff identical, 0 iff unconnected, symmetric; wup parts '
+         'are (i,j,k) of a lowest common hypernym, value in (0,1], 1 for identical synsets, symmetric; lch parts, symmetry and no '
+         'pair above self (argument of the antitone -log); res = maximum IC over common subsumers, symmetric; jcn/lin use the '
+         'lowest common hypernym of highest weight and are symmetric; incompatible parts of speech and missing common hypernyms '
+         'raise wn.Error. The special cases of jcn/lin and the float formulas themselves are decided by correspondence + oracle.',
+         'Trusted: Coq kernel + vm_compute + primitive floats (correspondence only); math.log not modelled (IC values are an input '
+         'table); comparison on floats assumed a strict total order on the values that occur; correspondence harness.',
+         'DESIGN.md section 5, C14'),
  'C13': ('Coq proof over a Gallina model of relation_paths / wn.taxonomy on an abstract hypernym graph (unbounded size, cycles '
          'and self-loops included); model tied to the code by differential correspondence on every digraph up to the node bound',
          'Theorems (closed under the global context): hypernym_paths = exactly the maximal simple chains, each once; termination '
